@@ -1,5 +1,5 @@
 CFG = {
-    "lean_targets": ["Norad.Props.C04"],
+    "lean_targets": ["Norad.Props.C04", "Norad.Props.C01Bridge", "Norad.Props.C01Stores"],
     "extract": "roundtrip",
     "audit": "Norad/Audit/C04.lean",
     "rule": ("inputs on disk: every UFO (13) and glif (71) under the repository's testdata (copied to scratch), generated font descriptions rendered by the harness' own "
@@ -36,7 +36,7 @@ MANIFEST = {
     "text": ("Theorems: norad_output_is_fixed_point (for every valid font inside the number guards, load(save(f)) is again a valid font inside the guards and one more save+load returns "
              "the same font: layers in order, colours, libs as maps, numbers within tolerance, features up to CR LF), rtFont_valid / rtFont_numbers (what load(save(f)) returns is "
              "representable), output_is_v3 (whatever was loaded, what is written says creator norad, formatVersion 3), objectlibs_key_without_fontinfo_counterexample (recorded finding: "
-             "a loadable tree whose loaded font cannot be saved), layers_default_moved_to_front. Source-level tie: source_absent_reads_match_model, source_absent_files_read_as_empty, source_gates_match_defaults (reader defaults = writer gates, from the Rust of the run). Correspondence: testdata UFOs and glifs + generated trees/glifs with randomised surface "
+             "a loadable tree whose loaded font cannot be saved), layers_default_moved_to_front. With norad's glif codec instantiated (C02) norad_output_is_fixed_point_glif needs no glyph assumption (noradNorm); data and image files by C16 (data_files_roundtrip, image_files_roundtrip). Source-level tie: source_absent_reads_match_model, source_absent_files_read_as_empty, source_gates_match_defaults (reader defaults = writer gates, from the Rust of the run). Correspondence: testdata UFOs and glifs + generated trees/glifs with randomised surface "
              "syntax through Font::load / Font::save / Font::load and Glyph::parse_raw / encode_xml / parse_raw, model saveFont/loadFont on the loaded font, specification oracle."),
     "design_ref": "5 / C01-C04, section 6",
     "note": "trusted: Lean kernel + 3 standard axioms; harness/driver glue incl. the independent renderer; legacy conversion at first load belongs to C14/C15; glif events belong to C02/C12",
